@@ -300,12 +300,12 @@ func genC03(tier string, emit func(any)) {
 	names := []string{"a", "b", "a'", "a0", "ia", "i", "s", "t"}
 	maxLen := 2
 	if tier == "thorough" {
-		names = append(names, "k", "i0", "e", "X")
+		names = append(names, "k", "i0", "e", "X", "ip1", "ip2")
 		maxLen = 3
 	}
 	var seqs [][]string
 	kit.Seqs(names, maxLen, func(s []string) { seqs = append(seqs, s) })
-	seqs = append(seqs, []string{"a", "a", "a"}, []string{"a", "ia", "a'"}, []string{"X", "a"}, []string{"L128", "a", "L16384", "a"})
+	seqs = append(seqs, []string{"a", "a", "a"}, []string{"a", "ia", "a'"}, []string{"X", "a"}, []string{"L128", "a", "L16384", "a"}, []string{"ip1", "ip2"}, []string{"ip1", "a", "ip2"})
 	conts := []string{"v1", "v2", "v2pad", "v2idx", "v1null", "v2null"}
 	for _, sq := range seqs {
 		for _, cont := range conts {
